@@ -15,6 +15,7 @@ use std::sync::{Arc, Mutex};
 
 pub const MAX_SCOPE_DEPTH: usize = 3;
 pub const MAX_RETAINED: usize = 8;
+pub const MAX_RETAINED_WEIGHT: usize = 100;
 
 /// Every name the generator may bind anywhere (root or scopes); used for "absent stays absent".
 pub const NAME_POOL: &[&str] = &[
@@ -374,6 +375,11 @@ impl<'a, 'w> Runner<'a, 'w> {
 
     fn retain(&mut self, v: Value, op_index: usize) {
         let s = snap(&v);
+        // Retained values come back as operands (`pick`, host-side `+`, scope definitions): without a
+        // bound a long history doubles them until the run only measures the allocator.
+        if s.weight() > MAX_RETAINED_WEIGHT {
+            return;
+        }
         tls::with(|ts| {
             if ts.retained.len() >= MAX_RETAINED {
                 let at = op_index % MAX_RETAINED;
